@@ -45,6 +45,16 @@ def sig(fl):
     if pj.get("phase") in ("Succeeded", "Failed"):
         if j.get("phase") != pj.get("phase") or any(c["kind"] in ("Evict", "CreateReservation") for c in calls):
             return "op=reconcile clause=Tm"
+    # the phases persisted by this reconcile's writes, after the phase the job had before it
+    seq = [pj.get("phase", "")] + list(e.get("writes") or [])
+    for a, b in zip(seq, seq[1:]):
+        if a in ("Succeeded", "Failed") and b != a:
+            return "op=reconcile clause=Tm kind=phase-%s-overwritten-by-%s-within-reconcile" % (a, b or "empty")
+    if any(c["kind"] in ("Evict", "CreateReservation") and c.get("jp") in ("Succeeded", "Failed") for c in calls):
+        return "op=reconcile clause=Tm kind=call-after-terminal-phase-persisted"
+    ws = e.get("writes") or []
+    if (ws and ws[-1] != j.get("phase")) or (not ws and i >= 1 and j != pj):
+        return "op=reconcile clause=env kind=write-log-does-not-explain-observed-job"
     if j.get("phase") == "Failed" and j.get("reason") == "Timeout" and e["obs"]["r"].get("exists"):
         kind = "reservation-reference-never-recorded" if not pj.get("ref") else "other"
         return "op=reconcile clause=Tt kind=%s" % kind
@@ -69,6 +79,8 @@ CONF = {
          "sample": {"quick": 6, "thorough": 5}},
         {"module": "Gen_MigrationJob", "cfg": "Gen_sim.cfg", "simulate": {"quick": "num=300", "thorough": "num=4000"},
          "depth": 15, "timeout": 600},
+        # the reservation's life cycle alone, exhaustive and unsampled (unschedulable -> later scheduled on the pod's node ...)
+        {"module": "Gen_MigrationJob", "cfg": "Gen_resv.cfg", "timeout": 600},
     ],
     "go": [{"pkg": "pkg/descheduler/controllers/migration", "test": "TestVerifC17", "timeout": 1200}],
     "trace": {"module": "MigrationJobTrace", "cfg": "Trace.cfg", "timeout": 1500},
@@ -79,6 +91,17 @@ CONF = {
         "arbitrator filters always pass",
         "Reconcile is atomic with respect to the environment (the harness is sequential): reads never fail and are never stale "
         "(no informer lag); a failed write is not applied",
+        "'has reached succeeded or failed' is read as: that phase has been PERSISTED (accepted by the API server). (Tm) is judged "
+        "on the phase after the previous step followed by the phase read back from the API server after every accepted write "
+        "of the PodMigrationJob within the reconcile (client Update / Status().Update / Patch seen by the interceptor), and on "
+        "the persisted phase stamped on every Evict / CreateReservation call; a phase that exists only in the controller's "
+        "in-memory copy (its write failed) does not count; other writers of the job (doScavenge's Delete, users) are not driven",
+        "environment generation: besides the sampled BFS and random walks, Gen_resv.cfg enumerates unsampled every order of the "
+        "scheduler's reports about the reservation (unschedulable, scheduled on the pod's / another node, failed, preempted, "
+        "expired, deleted, bound) with reconciles in between up to 10 steps (no pod replacement / restart / clock there), and "
+        "two random segments in five report the reservation unschedulable first and schedule it (often on the "
+        "pod's own node) / expire / fail it only later; one other random segment in four is a fault-free happy path "
+        "(jobs that succeed and are reconciled again, also after their TTL)",
         "API write failures are injected at the n-th write of a Reconcile (client Create/Update/Delete/Patch/Status().Update and "
         "the eviction request itself); the injected error is neither NotFound nor AlreadyExists nor Conflict-specific",
         "environment: koord-scheduler's reservation life cycle (pkg/util/reservation setters) plus the package tests' "
